@@ -295,7 +295,9 @@ BestOf(x) == Path(-BaseH, x)
 \* once every block was delivered the best chain is the unique heaviest branch
 \* (when its tip is at least the margin above the finalised height 0)
 Converged == (Idle /\ ConvPremise(delivered)) => ns.best = BestOf(Heaviest)
-NoOrphanLeft == (Idle /\ AllValid /\ AllDelivered) => ns.orph = <<>>
+\* anti-vacuity: refuted by TLC iff the premise of Converged is reachable
+PremiseNeverHolds == ~(Idle /\ ConvPremise(delivered) /\ \E i \in 1..ns.last : ns.seqs[i][1] = "del")
+NoOrphanLeft == (Idle /\ AllValid /\ AllDelivered /\ \A b \in Free : <<b, "t">> \notin delivered) => ns.orph = <<>>
 
 \* ---- C26 ----
 RECURSIVE Replay(_, _)
